@@ -23,6 +23,30 @@ func SpecSpace(quick bool, yield func(sp *Spec, family string)) {
 			}}, fmt.Sprintf("rhs_nodes%d", n))
 		}
 	}
+	// 1b. trailing and inner empty alternatives after multi-item alternatives, in every bracket and at top level
+	b := &Str{Lexeme: "b"}
+	for _, body := range []Expr{
+		&Alt{Ops: []Expr{&Cat{Ops: []Expr{a, b}}}, TrailingEmpty: true},
+		&Alt{Ops: []Expr{a, &Cat{Ops: []Expr{b, x}}}, TrailingEmpty: true},
+		&Alt{Ops: []Expr{&Cat{Ops: []Expr{a, b, x}}, tk}, TrailingEmpty: true},
+		&Alt{Ops: []Expr{&Cat{Ops: []Expr{a, b}}, &Eps{}, tk}},
+		&Alt{Ops: []Expr{&Group{&Alt{Ops: []Expr{a, b}}}}, TrailingEmpty: true},
+		&Alt{Ops: []Expr{&Cat{Ops: []Expr{&Group{&Alt{Ops: []Expr{a, b}}}, x}}}, TrailingEmpty: true},
+	} {
+		for _, w := range []func(Expr) Expr{
+			func(e Expr) Expr { return e },
+			func(e Expr) Expr { return &Cat{Ops: []Expr{&Group{e}, x}} },
+			func(e Expr) Expr { return &Cat{Ops: []Expr{tk, &Opt{e}}} },
+			func(e Expr) Expr { return &Star{e} },
+			func(e Expr) Expr { return &Plus{e} },
+		} {
+			yield(&Spec{Name: "g", Decls: []Decl{
+				&TokenDecl{Name: "TK", Kind: DefString, Value: "t"},
+				&Rule{LHS: "x", RHS: &Str{Lexeme: "c"}},
+				&Rule{LHS: "start", RHS: w(body)},
+			}}, "empty_alternatives")
+		}
+	}
 	// 2. declaration sequences
 	e := &NT{Name: "e"}
 	pool := func() []Decl {
